@@ -228,13 +228,15 @@ def var_layout(spec: dict) -> dict:
         return {"states": {"w": 1}, "actions": {"q": 1}, "disturbances": {"d": 1}}
     if c == "CongestedDestination":
         return {"disturbances": {"d": 1}}
+    if c == "CountingDestination":  # caller-defined, sim/universe.py
+        return {"states": {"n": 1}}
     return {}
 
 
 RANGES = {
     ("l", "rho"): (5.0, 110.0), ("l", "v"): (15.0, 115.0), ("l", "v_ctrl"): (30.0, 120.0),
     ("o", "w"): (0.0, 120.0), ("o", "v_ctrl"): (30.0, 130.0), ("o", "d"): (300.0, 3500.0),
-    ("o", "r"): (0.0, 1.0), ("o", "q"): (100.0, 2200.0), ("d", "d"): (5.0, 90.0),
+    ("o", "r"): (0.0, 1.0), ("o", "q"): (100.0, 2200.0), ("d", "d"): (5.0, 90.0), ("d", "n"): (0.0, 5.0),
 }
 
 
